@@ -1,6 +1,326 @@
-//! Thread scheduler for the C18/C19 scenarios (filled in later).
-use serde_json::Value;
+//! Deterministic thread scheduler for the C18/C19 scenarios (DESIGN §5.1 `threads`).
+//!
+//! Real OS threads, one per entry of cfg.thr, deliver a puppet member's data and completion into the
+//! real operator graph.  With `--cfg callbag_verif` the crate calls `verif::yield_point` before every
+//! shared-state access of merge / combine / take; the hook parks the calling thread until the
+//! controller hands it the turn, so exactly one thread runs at a time and a schedule (sequence of
+//! thread ids, one per yield) determines the execution.  Without the cfg the hook never fires and each
+//! thread simply runs to completion when first scheduled (coarse interleavings only).
 
-pub fn run_threads(_sc: &Value) -> Vec<Value> {
-    vec![]
+use crate::{
+    comps::V,
+    env::{Decider, Env, THREAD_ID},
+    graph::{build, cfg_from},
+};
+use rand::{rngs::StdRng, Rng, SeedableRng};
+use serde_json::{json, Value};
+use std::{
+    panic::{catch_unwind, AssertUnwindSafe},
+    sync::{Arc, Condvar, Mutex},
+};
+
+struct State {
+    n: usize,
+    running: Option<usize>,
+    parked: Vec<bool>,
+    finished: Vec<bool>,
+    turn: Option<usize>,
 }
+
+pub struct Sched {
+    m: Mutex<State>,
+    cv: Condvar,
+}
+
+static CURRENT: Mutex<Option<Arc<Sched>>> = Mutex::new(None);
+
+fn current() -> Option<Arc<Sched>> {
+    CURRENT.lock().unwrap_or_else(|e| e.into_inner()).clone()
+}
+
+impl Sched {
+    fn park(&self, t: usize) {
+        let mut g = self.m.lock().unwrap_or_else(|e| e.into_inner());
+        g.parked[t - 1] = true;
+        if g.running == Some(t) {
+            g.running = None;
+        }
+        self.cv.notify_all();
+        while g.turn != Some(t) {
+            g = self.cv.wait(g).unwrap_or_else(|e| e.into_inner());
+        }
+        g.turn = None;
+        g.parked[t - 1] = false;
+        g.running = Some(t);
+    }
+
+    fn finish(&self, t: usize) {
+        let mut g = self.m.lock().unwrap_or_else(|e| e.into_inner());
+        g.finished[t - 1] = true;
+        g.parked[t - 1] = false;
+        if g.running == Some(t) {
+            g.running = None;
+        }
+        self.cv.notify_all();
+    }
+}
+
+/// the hook installed into the crate: park the calling worker thread
+pub fn hook(_label: &'static str) {
+    let t = THREAD_ID.with(|x| x.get());
+    if t == 0 {
+        return;
+    }
+    if let Some(s) = current() {
+        s.park(t);
+    }
+}
+
+#[cfg(callbag_verif)]
+fn install_hook() {
+    callbag::verif::set_hook(Some(Arc::new(hook)));
+}
+#[cfg(not(callbag_verif))]
+fn install_hook() {}
+
+pub fn hooks_compiled() -> bool {
+    cfg!(callbag_verif)
+}
+
+/// how the controller chooses the next thread at step i, given the runnable set and the thread that
+/// ran last; returns the choice and whether it was a free choice point (more than one runnable)
+pub trait Policy {
+    fn choose(&mut self, step: usize, runnable: &[usize], last: Option<usize>) -> usize;
+}
+
+/// follow a given schedule; fall back to "continue the last thread, else the lowest id"
+struct Follow {
+    sched: Vec<usize>,
+}
+impl Policy for Follow {
+    fn choose(&mut self, step: usize, runnable: &[usize], last: Option<usize>) -> usize {
+        if let Some(t) = self.sched.get(step) {
+            if runnable.contains(t) {
+                return *t;
+            }
+        }
+        match last {
+            Some(l) if runnable.contains(&l) => l,
+            _ => runnable[0],
+        }
+    }
+}
+
+struct Random {
+    rng: StdRng,
+    /// probability (percent) of switching away from a runnable thread
+    switch: u32,
+}
+impl Policy for Random {
+    fn choose(&mut self, _step: usize, runnable: &[usize], last: Option<usize>) -> usize {
+        if let Some(l) = last {
+            if runnable.contains(&l) && self.rng.gen_range(0..100) >= self.switch {
+                return l;
+            }
+        }
+        runnable[self.rng.gen_range(0..runnable.len())]
+    }
+}
+
+pub struct RunResult {
+    pub rec: Value,
+    /// per step: (chosen thread, runnable threads, last thread)
+    pub steps: Vec<(usize, Vec<usize>, Option<usize>)>,
+}
+
+pub fn run_schedule(sc: &Value, id: &Value, policy: &mut dyn Policy) -> RunResult {
+    let cfg = cfg_from(sc);
+    let env = Env::new(cfg, Decider::Replay { script: vec![], pos: 0, diverged: false });
+    let g = build(sc, &env);
+    let thr = sc["cfg"]["thr"].as_array().cloned().unwrap_or_default();
+    let n = thr.len();
+    // sequential setup on the main thread: subscribe and greet (hook is a no-op for thread 0)
+    THREAD_ID.with(|x| x.set(0));
+    env.event("top", "K1", "attach", json!(0));
+    let setup = catch_unwind(AssertUnwindSafe(|| g.attach(1)));
+    let mut steps = vec![];
+    if setup.is_err() {
+        env.event("panic", "", "", json!(0));
+    } else {
+        let sched = Arc::new(Sched {
+            m: Mutex::new(State { n, running: None, parked: vec![false; n], finished: vec![false; n], turn: None }),
+            cv: Condvar::new(),
+        });
+        *CURRENT.lock().unwrap_or_else(|e| e.into_inner()) = Some(Arc::clone(&sched));
+        install_hook();
+        env.event("top", "", "threads", json!(0));
+        let mut handles = vec![];
+        for (i, prog) in thr.iter().enumerate() {
+            let t = i + 1;
+            let pid = prog["pid"].as_u64().unwrap_or(1) as usize;
+            let ndata = prog["data"].as_u64().unwrap_or(1) as usize;
+            let end = prog["end"].as_str().unwrap_or("T").to_string();
+            let env2 = Arc::clone(&env);
+            let sched2 = Arc::clone(&sched);
+            let pup = Arc::clone(&g.puppets[&pid]);
+            // the (first) instance of that puppet
+            let ix = {
+                let gd = env.lock();
+                gd.insts.iter().position(|x| x.pup == pid)
+            };
+            handles.push(std::thread::spawn(move || {
+                THREAD_ID.with(|x| x.set(t));
+                sched2.park(t); // "th_start"
+                let r = catch_unwind(AssertUnwindSafe(|| {
+                    if let Some(ix) = ix {
+                        for _ in 0..ndata {
+                            // a conformant member does not begin an emission once it was stopped
+                            if !env2.with_inst(ix, |x| x.live()) {
+                                break;
+                            }
+                            pup.top(ix, "emit");
+                        }
+                        if end != "none" && env2.with_inst(ix, |x| x.live()) {
+                            pup.top(ix, if end == "E" { "fail" } else { "end" });
+                        }
+                    }
+                }));
+                if r.is_err() {
+                    env2.event("panic", "", "", json!(0));
+                }
+                sched2.finish(t);
+            }));
+        }
+        // controller
+        let mut last: Option<usize> = None;
+        let mut step = 0usize;
+        loop {
+            let runnable: Vec<usize> = {
+                let mut st = sched.m.lock().unwrap_or_else(|e| e.into_inner());
+                // wait until nobody runs and every unfinished thread is parked
+                loop {
+                    let all_parked = (0..st.n).all(|i| st.finished[i] || st.parked[i]);
+                    if st.running.is_none() && st.turn.is_none() && all_parked {
+                        break;
+                    }
+                    st = sched.cv.wait(st).unwrap_or_else(|e| e.into_inner());
+                }
+                (1..=st.n).filter(|t| !st.finished[t - 1]).collect()
+            };
+            if runnable.is_empty() {
+                break;
+            }
+            let t = policy.choose(step, &runnable, last);
+            steps.push((t, runnable.clone(), last));
+            {
+                let mut st = sched.m.lock().unwrap_or_else(|e| e.into_inner());
+                st.turn = Some(t);
+                sched.cv.notify_all();
+            }
+            last = Some(t);
+            step += 1;
+            if step > 100_000 {
+                eprintln!("scheduler: runaway schedule");
+                std::process::exit(2);
+            }
+        }
+        for h in handles {
+            let _ = h.join();
+        }
+        *CURRENT.lock().unwrap_or_else(|e| e.into_inner()) = None;
+    }
+    let gd = env.lock();
+    let rec = json!({
+        "id": id,
+        "fam": sc["fam"],
+        "cfg": sc["cfg"],
+        "script": [],
+        "sched": steps.iter().map(|s| s.0).collect::<Vec<_>>(),
+        "obs": gd.obs,
+        "hooks": hooks_compiled(),
+    });
+    drop(gd);
+    drop(g);
+    env.cleanup();
+    RunResult { rec, steps }
+}
+
+/// all schedules with at most `bound` preemptions (a preemption = switching away from the last thread
+/// although it is still runnable), by stateless re-execution
+fn enumerate(sc: &Value, bound: usize, limit: usize, out: &mut Vec<Value>) {
+    // a work item is a schedule prefix; the run continues it with the non-preemptive default policy
+    let mut work: Vec<(Vec<usize>, usize)> = vec![(vec![], 0)]; // (prefix, preemptions used in prefix)
+    let mut seen = 0usize;
+    while let Some((prefix, used)) = work.pop() {
+        let mut pol = Follow { sched: prefix.clone() };
+        let idv = json!(format!("{}.e{}", id_of(sc), seen));
+        let r = run_schedule(sc, &idv, &mut pol);
+        seen += 1;
+        out.push(r.rec);
+        if seen >= limit {
+            out.push(json!({"id": sc["id"], "truncated": true}));
+            return;
+        }
+        // branch at every step after the prefix
+        for (i, (chosen, runnable, last)) in r.steps.iter().enumerate().skip(prefix.len()) {
+            for alt in runnable {
+                if alt == chosen {
+                    continue;
+                }
+                let preempt = matches!(last, Some(l) if runnable.contains(l) && alt != l);
+                let cost = used + r.steps[prefix.len()..i].iter().filter(|(c, rn, l)| matches!(l, Some(l) if rn.contains(l) && c != l)).count()
+                    + if preempt { 1 } else { 0 };
+                if cost > bound {
+                    continue;
+                }
+                let mut p: Vec<usize> = r.steps[..i].iter().map(|s| s.0).collect();
+                p.push(*alt);
+                work.push((p, cost));
+            }
+        }
+    }
+}
+
+fn id_of(sc: &Value) -> String {
+    match sc["id"].as_str() {
+        Some(s) => s.to_string(),
+        None => sc["id"].to_string(),
+    }
+}
+
+pub fn run_threads(sc: &Value) -> Vec<Value> {
+    let mut out = vec![];
+    if let Some(scheds) = sc["scheds"].as_array() {
+        for (i, s) in scheds.iter().enumerate() {
+            let v: Vec<usize> = s.as_array().map(|a| a.iter().map(|x| x.as_u64().unwrap_or(0) as usize).collect()).unwrap_or_default();
+            let mut pol = Follow { sched: v };
+            let idv = json!(format!("{}.s{}", id_of(sc), i));
+            out.push(run_schedule(sc, &idv, &mut pol).rec);
+        }
+    }
+    if let Some(e) = sc.get("enumerate") {
+        if e.is_object() {
+            let bound = e["preempt"].as_u64().unwrap_or(2) as usize;
+            let limit = e["limit"].as_u64().unwrap_or(20000) as usize;
+            enumerate(sc, bound, limit, &mut out);
+        }
+    }
+    if let Some(r) = sc.get("rand") {
+        if r.is_object() {
+            let count = r["count"].as_u64().unwrap_or(100);
+            let seed = r["seed"].as_u64().unwrap_or(0);
+            for i in 0..count {
+                let mut pol = Random {
+                    rng: StdRng::seed_from_u64(seed.wrapping_mul(7_919).wrapping_add(i)),
+                    switch: 10 + ((i % 5) * 15) as u32,
+                };
+                let idv = json!(format!("{}.r{}", id_of(sc), i));
+                out.push(run_schedule(sc, &idv, &mut pol).rec);
+            }
+        }
+    }
+    out
+}
+
+#[allow(dead_code)]
+fn unused(_: V) {}
